@@ -10,6 +10,11 @@ def _rounding():
     return rounding.generate(os.path.join(REPO, 'src/quantity/__init__.py'))
 
 
+def _qlayer():
+    from . import qlayer
+    return qlayer.generate(os.path.join(REPO, 'src/quantity/__init__.py'))
+
+
 def _temptable():
     from . import temptable
     return temptable.generate(os.path.join(REPO, 'src/quantity/predefined.py'))
@@ -37,6 +42,7 @@ def _doctables():
 
 GENERATORS = [
     ('RoundingImpl', _rounding),
+    ('QuantityImpl', _qlayer),
     ('TempTable', _temptable),
     ('IsoTable', _isotable),
     ('Catalogue', _catalogue),
